@@ -168,6 +168,51 @@ func sameSeq(a, b ssa.Value) bool {
 	if sameLoc(a, b) {
 		return true
 	}
+	// two lookups of one constant key in one map value, with nothing that can change the map on a way from the
+	// one to the other (an update of it, a call it is handed to)
+	if la, ok := canon(a).(*ssa.Lookup); ok {
+		if lb, ok := canon(b).(*ssa.Lookup); ok && la != lb && !la.CommaOk && !lb.CommaOk && canon(la.X) == canon(lb.X) {
+			ka, okA := constString(la.Index)
+			kb, okB := constString(lb.Index)
+			if okA && okB && ka == kb && la.Parent() == lb.Parent() {
+				first, second := la, lb
+				if !(first.Block() == second.Block() && instrIndex(first) < instrIndex(second)) && !reachFromBlock(first.Block())[second.Block()] {
+					first, second = lb, la
+				}
+				clean := true
+				m := canon(first.X)
+				between := func(in ssa.Instruction) bool {
+					after := (in.Block() == first.Block() && instrIndex(in) > instrIndex(first)) || (in.Block() != first.Block() && reachFromBlock(first.Block())[in.Block()])
+					before := (in.Block() == second.Block() && instrIndex(in) < instrIndex(second)) || (in.Block() != second.Block() && reachFromBlock(in.Block())[second.Block()])
+					return after && before
+				}
+				eachInstr(first.Parent(), func(in ssa.Instruction) {
+					switch x := in.(type) {
+					case *ssa.MapUpdate:
+						if canon(x.Map) == m && between(in) {
+							clean = false
+						}
+					case ssa.CallInstruction:
+						for _, arg := range x.Common().Args {
+							if canon(arg) == m && between(in) {
+								clean = false
+							}
+						}
+						if x.Common().IsInvoke() && canon(x.Common().Value) == m && between(in) {
+							clean = false
+						}
+					case *ssa.Store:
+						if canon(x.Val) == m {
+							clean = false // the map is kept in memory somewhere: another name for it may be used
+						}
+					}
+				})
+				if clean {
+					return true
+				}
+			}
+		}
+	}
 	// loads of the same field with no store or call between them (same block window)
 	ua, ok1 := canon(a).(*ssa.UnOp)
 	ub, ok2 := canon(b).(*ssa.UnOp)
